@@ -104,7 +104,9 @@ def check_bed(spec, ctx):
     dec = [(d["start"] + s, d["start"] + s + z) for s, z in zip(d["starts"], d["sizes"])]
     ctx.eq("decoded_blocks", dec, sorted(conv(b) for b in blocks))
     ctx.eq("decoded_span", (d["start"], d["end"]), conv((lo, hi)))
-    ctx.eq("decoded_strand", d["strand"], {"+": "-", "-": "+"}[strand] if mirrored else strand)
+    ctx.eq("decoded_strand", d["strand"], {"+": "-", "-": "+", ".": "."}[strand] if mirrored else strand)
+    if strand == ".":
+        ctx.label("unstranded")
     ctx.eq("decoded_chrom", d["chrom"], "chr1")
     ctx.eq("decoded_score", d["score"], spec["score"])
     ctx.eq("decoded_rgb", d["rgb"], ",".join(str(x) for x in spec["rgb"]))
@@ -126,11 +128,11 @@ def check_bed(spec, ctx):
 def strat_bed(draw, tier="quick"):
     kind = draw(st.sampled_from(["tx", "tx", "feat"]))
     if kind == "tx":
-        obj = draw(S.transcript_spec(max_exons=5, max_len=9, frameshift_prob=30, start_max=12, cds_overlap_prob=8, adjacent_exons=draw(st.booleans())))
+        obj = draw(S.transcript_spec(max_exons=5, max_len=9, frameshift_prob=30, start_max=12, cds_overlap_prob=8, unstranded_prob=6, adjacent_exons=draw(st.booleans())))
         blocks = obj["exons"]
         names = ["transcript_symbol", "transcript_id", "guid", "my name", "protein_id"]
     else:
-        obj = draw(S.feature_spec(max_blocks=5, max_len=9, start_max=12, adjacent_blocks=draw(st.booleans())))
+        obj = draw(S.feature_spec(max_blocks=5, max_len=9, start_max=12, adjacent_blocks=draw(st.booleans()), unstranded_prob=5))
         blocks = obj["blocks"]
         names = ["feature_name", "feature_id", "guid", "custom"]
     lo, hi = blocks[0][0], blocks[-1][1]
@@ -155,7 +157,7 @@ PROP = Prop(
     pid="C14",
     legs=[
         Leg("bed12", check_bed, strategy=strat_bed, examples=EX, n_quick=1500, n_thorough=15000,
-            must_hit=["chunk_relative&cs>0", "coding", "minus", "touching_blocks", "chunk_relative&minus_chunk"],
+            must_hit=["chunk_relative&cs>0", "coding", "minus", "touching_blocks", "chunk_relative&minus_chunk", "unstranded"],
             rule="transcripts (coding or not) and features of 1..5 blocks on both strands x parent {chunk containing the interval, whole chromosome, none} x export mode {chromosome, chunk-relative} x name selector x score x RGB; the text of the record is parsed by an independent 12-column reader"),
     ],
     rule="Oracle: BED12 format invariants + decoding back to blocks/strand/name/CDS bounds. Non-trivial: >=2 blocks and (chunk-relative with chunk start > 0, or coding).",
